@@ -157,6 +157,35 @@ def exportCov (F : NumFmt K) (c : Cov K) : Nat × Nat × List String := (c.dim, 
 def parseCov (F : NumFmt K) (d : Nat × Nat × List String) : Option (Cov K) :=
   (d.2.2.mapM F.rd).map (fun xs => ⟨d.1, d.2.1, xs⟩)
 
+/-! ### covariances under `y_sign() = -1`
+
+  `change_y_signs_for_inconsistent_system_` (network.cpp) negates the value of every `Y` / `Ydiff` observation of a
+  cluster and every covariance `C(r,s)`, `r < s ≤ min(N, r+B)`, between a mirrored and a not mirrored component.
+  `export_xml` writes `y`, `dy` multiplied by `y_sign()` and (`updated_xml_covmat` with the observation list) negates
+  exactly the same entries again.  Both enumerate the packed upper band row by row. -/
+
+/-- for every stored entry `(i, j)`, `j = i … min(i+band, dim)`, row by row: is exactly one of `i`, `j` mirrored? -/
+def entrySigns (dim band : Nat) (mir : Nat → Bool) : List Bool :=
+  (List.range dim).flatMap (fun i0 =>
+    (List.range (min band (dim - 1 - i0) + 1)).map (fun t => mir (i0 + 1) != mir (i0 + 1 + t)))
+
+/-- negate the flagged entries -/
+def flipWith (neg : K → K) : List Bool → List K → List K
+  | b :: bs, x :: xs => (if b then neg x else x) :: flipWith neg bs xs
+  | _, xs => xs
+
+/-- the mirroring of a cluster's covariance matrix (c7fddb0) = what `updated_xml_covmat` undoes when `y_sign() < 0` -/
+def mirrorCov (neg : K → K) (mir : Nat → Bool) (c : Cov K) : Cov K :=
+  { c with data := flipWith neg (entrySigns c.dim c.band mir) c.data }
+
+/-- `<cov-mat>` of a `<coordinates>` / `<vectors>` cluster as exported: `ysign = true` ⇔ `y_sign() < 0` -/
+def exportCovY (F : NumFmt K) (neg : K → K) (ysign : Bool) (mir : Nat → Bool) (c : Cov K) : Nat × Nat × List String :=
+  exportCov F (if ysign then mirrorCov neg mir c else c)
+
+/-- parsing and `remove_inconsistency()` -/
+def parseCovY (F : NumFmt K) (neg : K → K) (ysign : Bool) (mir : Nat → Bool) (d : Nat × Nat × List String) : Option (Cov K) :=
+  (parseCov F d).map (fun c => if ysign then mirrorCov neg mir c else c)
+
 /-! ### a StandPoint cluster -/
 
 structure StandPoint (K : Type) where
